@@ -36,6 +36,15 @@ def replay(rec: Dict[str, Any]) -> List[Tuple[str, Dict[str, Any], str]]:
     docs = rec["_docs"]
     ctx_t = rec.get("_ctx")
     for text in texts_of(rec):
+        if " " in text:
+            # look-alike texts compiled by the same environment first (every run of blanks one blank; every blank doubled):
+            # inside a quoted name or literal these are other queries, and none of them is this one
+            for other in (" ".join(text.split()), text.replace(" ", "  ")):
+                if other != text:
+                    try:
+                        jsonpath.compile(other)
+                    except BaseException:  # noqa: BLE001
+                        pass
         try:
             p1 = jsonpath.compile(text)
         except BaseException:  # noqa: BLE001  (not an accepted query: not this property's business)
